@@ -410,12 +410,16 @@ func MessageFromWireFormat(buf []byte) (Message, error) {
 type messageBuilder struct {
 	w         bytes.Buffer
 	nameCache map[string]int
+	// nameDepth is the number of compression pointers a decoder follows when
+	// it reads the name cached under the same key in nameCache.
+	nameDepth map[string]int
 }
 
 // newMessageBuilder creates a new messageBuilder with an empty name cache.
 func newMessageBuilder() *messageBuilder {
 	return &messageBuilder{
 		nameCache: make(map[string]int),
+		nameDepth: make(map[string]int),
 	}
 }
 
@@ -429,9 +433,16 @@ func (builder *messageBuilder) Bytes() []byte {
 func (builder *messageBuilder) WriteName(name Name) error {
 	// https://tools.ietf.org/html/rfc1035#section-3.1
 	for i := range name {
-		// Has this suffix already been encoded in the message?
-		if ptr, ok := builder.nameCache[name[i:].String()]; ok && ptr&0x3fff == ptr {
-			// If so, we can write a compression pointer.
+		// Has this suffix already been encoded in the message? A suffix
+		// that itself ends in a chain of compressionPointerLimit pointers
+		// cannot be pointed at: readName would refuse the resulting name.
+		suffix := name[i:].String()
+		if ptr, ok := builder.nameCache[suffix]; ok && ptr&0x3fff == ptr && builder.nameDepth[suffix] < compressionPointerLimit {
+			// If so, we can write a compression pointer. The labels
+			// written verbatim above now end in one more pointer.
+			for j := 0; j < i; j++ {
+				builder.nameDepth[name[j:].String()] = builder.nameDepth[suffix] + 1
+			}
 			return binary.Write(&builder.w, binary.BigEndian, uint16(0xc000|ptr))
 		}
 		// Not cached; we must encode this label verbatim. Store a cache
